@@ -420,7 +420,7 @@ pub fn check(ctx: &mut Ctx) -> i32 {
         }
     };
     let cfgs = configs(ctx);
-    let nprog = ctx.by(60, 300);
+    let nprog = ctx.by(60, 6000);
     let mut programs = scripted_programs();
     programs.extend(gen_programs(ctx.seed.wrapping_mul(7919), nprog));
     let fail = |ctx: &Ctx, acc: &Accum, clause: &str, msg: String, detail: serde_json::Value| -> i32 {
